@@ -48,7 +48,7 @@ func cmdDump(args []string) error {
 	var bads []bad
 	n, dumps := 0, 0
 	var sample interface{}
-	indents := []string{"", " ", "\t", "ab", "   ", "    ", "        ", " \t"}
+	indents := []string{"", " ", "\t", "ab", "   ", "    ", "        ", " \t", "%s", "%"}
 	levels := []int{0, 1, 3, 5, 9, 11}
 	sc := bufio.NewScanner(f)
 	sc.Buffer(make([]byte, 1<<20), 1<<26)
